@@ -413,6 +413,32 @@ def r6(ctx):
     if n != 1:
         raise AnalysisBroken('C13.R6: Message::isAvailable has %d value returns' % n)
 
+def r7(ctx):
+    ctx.rule('C13.R7', 'a combined condition is registered for reuse only when it is complete: combineAnd() extends the object in '
+             'place, so inside the loop of MessageMap::readConditions that combines the parts no store of the running '
+             'combination into m_conditions may occur (a prefix registered early silently grows further parts)', minimum=1)
+    fb = ctx.fb
+    fn = fb.fn('ebusd::MessageMap::readConditions')
+    ctx.touch(fn)
+    comb = [c for c in fn.all('CXXMemberCallExpr') if (fn.nodes[c].get('callee') or '').endswith('::combineAnd')]
+    if not comb:
+        raise AnalysisBroken('C13.R7: combineAnd call not found in readConditions')
+    loops = [l for l in fn.all('WhileStmt', 'ForStmt', 'DoStmt') if comb[0] in set(fn.walk(l))]
+    inloop = set()
+    for l in loops:
+        inloop |= set(fn.walk(l))
+    cond = fn.P(len(fn.params) - 1)
+    n = 0
+    for nid, v in sorted(fn.nodes.items()):
+        if v['k'] == 'BinaryOperator' and v.get('op') == '=' and fn.key(v['lhs']).startswith('this.m_conditions['):
+            n += 1
+            rk = fn.key(v['rhs'])
+            running = rk == '*' + cond
+            ok = not (running and nid in inloop)
+            ctx.ob('C13.R7', fn, nid, ok, 'store %s into m_conditions' % rk, 'running combination stored inside the combining loop: %s' % (not ok))
+    if n < 2:
+        raise AnalysisBroken('C13.R7: only %d stores into m_conditions found' % n)
+
 def run(ctx):
     r1(ctx)
     r2(ctx)
@@ -423,3 +449,4 @@ def run(ctx):
                'a numeric condition reads the referenced field through the numeric DataFieldSet::read; it must locate the '
                'field at the same byte/bit position as the length computation and the text decoder do')
     r6(ctx)
+    r7(ctx)
